@@ -16,7 +16,7 @@ RULE = (
     "constructor; distinct = distinct (node names, edge set); non-trivial = every case (accepted: closure+order contract "
     "evaluated; refused: reference confirms a cycle/self-loop/unknown/isolated node)"
 )
-REQUIRED = {"contract_evaluations": 1000, "accepted": 1000, "refused": 1000, "model_graphs": 10, "incremental_equal": 30, "case_colliding_namings": 200}
+REQUIRED = {"contract_evaluations": 1000, "accepted": 1000, "refused": 1000, "model_graphs": 10, "incremental_equal": 30, "listing_checks": 1000, "case_colliding_namings": 200}
 EXHAUSTIVE = {"quick": True, "thorough": True}
 ASSUMPTIONS = [
     "exhaustive scopes are finite (n<=5, loop-free at n=5 in quick); beyond them graphs are sampled",
@@ -101,6 +101,8 @@ def _attempt(VariablesDAG, names, anc, ctx, case, check_determinism=True, rng=No
         ctx.violation(f"dag/{reason}-accepted", f"definitions with a {reason} were accepted", case)
         return None
     ctx.count("accepted")
+    if not _listing_ok(dag, variables, ctx, case):
+        return None
     if check_determinism:
         # same definitions, different dict insertion order / set construction order
         perm = list(names)
@@ -147,6 +149,27 @@ def _attempt(VariablesDAG, names, anc, ctx, case, check_determinism=True, rng=No
                 b=dag2.sorted_variables_names,
             )
     return dag
+
+
+def _listing_ok(dag, variables, ctx, case):
+    """Every public way of listing the graph (iteration, keys / items / values of the mapping) gives the one documented order."""
+    order = list(dag.sorted_variables_names)
+    try:
+        listings = {"iter": list(dag), "keys": list(dag.keys()), "items": [k for k, _ in dag.items()]}
+        vals = list(dag.values())
+        its = list(dag.items())
+    except Exception as e:
+        ctx.violation("dag/listing-raises", f"listing the graph raised {e!r}", case)
+        return False
+    ctx.count("listing_checks")
+    for how, got in listings.items():
+        if got != order:
+            ctx.violation("dag/listing-order-differs", f"listing the graph through {how} gives {got[:8]}, the order of the graph is {order[:8]}", case)
+            return False
+    if variables is not None and (any(v is not variables[k] for k, v in its) or any(v is not variables[k] for k, v in zip(order, vals))):
+        ctx.violation("dag/listing-order-differs", "items() / values() do not pair the names of the graph's order with their definitions", case)
+        return False
+    return True
 
 
 def _graph_from_mask(n, mask, names, with_loops):
@@ -402,6 +425,8 @@ def _run_models(ctx, VariablesDAG):
         dag2 = VariablesDAG({k: v for k, v in reversed(items)}, direct_ancestors={k: v.get_ancestors_names() for k, v in reversed(items)})
         if dag.sorted_variables_names != dag2.sorted_variables_names:
             ctx.violation("dag/order-not-deterministic", f"model graph {label} order depends on insertion order", {"model": label})
+        if not _listing_ok(dag, None, ctx, {"model": label}):
+            continue
         ctx.count("model_graphs")
         ctx.count("accepted")
         ctx.distinct("model", label, len(dag))
